@@ -86,20 +86,20 @@ Section Loops.
     match keys with
     | [k] =>
         if (nil_b ek && g_partial o) || (g_wild o && is_star (get_key k ek)) then
-          get_wild_all (get_rec env ko o f) s sfs keys e0 prest trav es
+          get_wild_all (get_rec env fo ko o f) s sfs keys e0 prest trav es
         else
           match al_find k ek with
           | None => if nil_b es then Ok [] else Err
-          | Some pk => get_first (get_rec env ko o f) s sfs e0 prest trav k pk es
+          | Some pk => get_first (get_rec env fo ko o f) s sfs e0 prest trav k pk es
           end
-    | _ => get_all o (get_rec env ko o f) s sfs keys e0 prest trav ek es
+    | _ => get_all o (get_rec env fo ko o f) s sfs keys e0 prest trav ek es
     end.
 
   Lemma get_rec_list o f ord keys mn mx sfs es e0 prest trav :
-    get_rec env ko o (S f) (SList ord keys mn mx sfs) (Some (TList es)) (e0 :: prest) trav =
+    get_rec env fo ko o (S f) (SList ord keys mn mx sfs) (Some (TList es)) (e0 :: prest) trav =
     if ord then
-      bind (ordered_keys_parse env sfs keys (ekeys e0)) (fun _ =>
-        get_oall o (get_rec env ko o f) (SList true keys mn mx sfs) keys e0 prest trav (ekeys e0) es)
+      bind (ordered_keys_parse env fo ko sfs keys (ekeys e0)) (fun _ =>
+        get_oall o (get_rec env fo ko o f) (SList true keys mn mx sfs) keys e0 prest trav (ekeys e0) es)
     else get_list o f (SList false keys mn mx sfs) keys sfs es e0 prest trav.
   Proof. destruct ord; reflexivity. Qed.
 
@@ -111,15 +111,15 @@ Section Loops.
         let np := trav ++ firstn to path in
         if shadow_leaf then
           (if is_leafish ss then Ok [{| gn_path := np; gn_data := None |}] else Err)
-        else get_rec env ko o f ss (field_get (f_go fi) fs) (skipn to path) np
+        else get_rec env fo ko o f ss (field_get (f_go fi) fs) (skipn to path) np
     | _ => Err
     end.
 
   Lemma get_rec_cont o f sfs fs e0 prest trav :
-    get_rec env ko o (S f) (SCont sfs) (Some (TCont fs)) (e0 :: prest) trav = get_struct o f sfs fs (e0 :: prest) trav.
+    get_rec env fo ko o (S f) (SCont sfs) (Some (TCont fs)) (e0 :: prest) trav = get_struct o f sfs fs (e0 :: prest) trav.
   Proof. reflexivity. Qed.
   Lemma get_rec_entry o f ord keys mn mx sfs fs e0 prest trav :
-    get_rec env ko o (S f) (SList ord keys mn mx sfs) (Some (TCont fs)) (e0 :: prest) trav = get_struct o f sfs fs (e0 :: prest) trav.
+    get_rec env fo ko o (S f) (SList ord keys mn mx sfs) (Some (TCont fs)) (e0 :: prest) trav = get_struct o f sfs fs (e0 :: prest) trav.
   Proof. destruct ord; reflexivity. Qed.
 
   (* ---------- set ---------- *)
@@ -193,7 +193,7 @@ Section Loops.
             if Nat.eqb n O && s_init o then
               if negb (Nat.eqb nparsed (length keys)) then (Some (TList acc), Err)
               else
-                match make_ordered_entry env sfs keys ek with
+                match make_ordered_entry env fo ko sfs keys ek with
                 | Ok (mk, nfs) =>
                     match tl_find mk acc with
                     | Some _ => (Some (TList acc), Err)
@@ -237,7 +237,7 @@ Section Loops.
   Lemma set_rec_list o tv f ord keys mn mx sfs es e0 prest :
     set_rec env fo ko o tv (S f) (SList ord keys mn mx sfs) (Some (TList es)) (e0 :: prest) =
     if ord then
-      match ordered_keys_parse env sfs keys (ekeys e0) with
+      match ordered_keys_parse env fo ko sfs keys (ekeys e0) with
       | Ok nparsed => set_oall o (set_rec env fo ko o tv f) (SList true keys mn mx sfs) sfs keys (ekeys e0) prest nparsed es es O
       | Err => (Some (TList es), Err)
       | Panic => (Some (TList es), Panic)
@@ -368,16 +368,16 @@ Section Loops.
     | [k] =>
         match al_find k ek with
         | None => if nil_b es then (cur, Ok tt) else (cur, Err)
-        | Some pk => del_first (del_rec env ko sh f) s sfs prest cur es k pk es
+        | Some pk => del_first (del_rec env fo ko sh f) s sfs prest cur es k pk es
         end
-    | _ => del_all (del_rec env ko sh f) s sfs keys ek prest es es
+    | _ => del_all (del_rec env fo ko sh f) s sfs keys ek prest es es
     end.
 
   Lemma del_rec_list sh f ord keys mn mx sfs es e0 prest :
-    del_rec env ko sh (S f) (SList ord keys mn mx sfs) (Some (TList es)) (e0 :: prest) =
+    del_rec env fo ko sh (S f) (SList ord keys mn mx sfs) (Some (TList es)) (e0 :: prest) =
     if ord then
-      match ordered_keys_parse env sfs keys (ekeys e0) with
-      | Ok _ => del_oall (del_rec env ko sh f) (SList true keys mn mx sfs) keys (ekeys e0) prest es es
+      match ordered_keys_parse env fo ko sfs keys (ekeys e0) with
+      | Ok _ => del_oall (del_rec env fo ko sh f) (SList true keys mn mx sfs) keys (ekeys e0) prest es es
       | Err => (Some (TList es), Err)
       | Panic => (Some (TList es), Panic)
       end
@@ -394,7 +394,7 @@ Section Loops.
         else if Nat.eqb (length path) to then
           (Some (TCont (field_remove (f_go fi) fs)), Ok tt)
         else
-          let '(c', r) := del_rec env ko sh f ss (field_get (f_go fi) fs) (skipn to path) in
+          let '(c', r) := del_rec env fo ko sh f ss (field_get (f_go fi) fs) (skipn to path) in
           let c'' := match r with Ok _ => prune_child ss c' | _ => c' end in
           (Some (TCont (match c'' with
                         | Some x => field_set (go_names sfs) (f_go fi) x fs
@@ -404,10 +404,10 @@ Section Loops.
     end.
 
   Lemma del_rec_cont sh f sfs fs e0 prest :
-    del_rec env ko sh (S f) (SCont sfs) (Some (TCont fs)) (e0 :: prest) = del_struct sh f sfs fs (e0 :: prest).
+    del_rec env fo ko sh (S f) (SCont sfs) (Some (TCont fs)) (e0 :: prest) = del_struct sh f sfs fs (e0 :: prest).
   Proof. reflexivity. Qed.
   Lemma del_rec_entry sh f ord keys mn mx sfs fs e0 prest :
-    del_rec env ko sh (S f) (SList ord keys mn mx sfs) (Some (TCont fs)) (e0 :: prest) = del_struct sh f sfs fs (e0 :: prest).
+    del_rec env fo ko sh (S f) (SList ord keys mn mx sfs) (Some (TCont fs)) (e0 :: prest) = del_struct sh f sfs fs (e0 :: prest).
   Proof. destruct ord; reflexivity. Qed.
 End Loops.
 
@@ -1154,14 +1154,15 @@ Section Keys.
   Qed.
 
   Lemma ordered_keys_parse_ok sfs ek : forall keys pk, path_key true sfs keys ek = Some pk ->
-    ordered_keys_parse env sfs keys ek = Ok (length keys).
+    ordered_keys_parse env fo ko sfs keys ek = Ok (length keys).
   Proof.
     induction keys as [|k ks IH]; intros pk Hp; [reflexivity|].
     cbn [NodeFrameProofs.path_key] in Hp. cbn [ordered_keys_parse].
     destruct (al_find k ek) as [s|]; [|discriminate].
     destruct (key_field sfs k) as [[fi [t d| | | |]]|]; try discriminate.
     unfold NodeFrameProofs.parse_key in Hp.
-    destruct (string_to_gotype env t s) as [pv| |]; try discriminate.
+    destruct (string_to_gotype env t s) as [pv| |] eqn:Eg; try discriminate.
+    rewrite (gotype_key_agree env fo ko _ _ _ Eg).
     destruct (key_canon env ko pv s); [|discriminate].
     destruct (path_key true sfs ks ek) as [r|] eqn:Er; [|discriminate].
     cbn [bind]. rewrite (IH _ eq_refl). reflexivity.
@@ -1239,7 +1240,7 @@ Section Keys.
   Lemma make_ordered_entry_ok sfs ek : NoDup (go_names sfs) -> forall keys pk,
     (forall k, In k keys -> key_leaf_okb sfs k = true) -> NoDup (map (key_go sfs) keys) ->
     path_key true sfs keys ek = Some pk ->
-    exists nfs, make_ordered_entry env sfs keys ek = Ok (pk, nfs) /\ key_struct sfs keys pk nfs.
+    exists nfs, make_ordered_entry env fo ko sfs keys ek = Ok (pk, nfs) /\ key_struct sfs keys pk nfs.
   Proof.
     intros Hnd. induction keys as [|k ks IH]; intros pk Hkl Hkd Hp.
     - simpl in Hp. injection Hp as <-. exists []. split; [reflexivity|]. split; [apply ss_nil|split; [reflexivity | intros ? ? []]].
@@ -1251,7 +1252,7 @@ Section Keys.
       destruct (path_key true sfs ks ek) as [r|] eqn:Er; [|discriminate]. injection Hp as <-.
       inversion Hkd; subst.
       destruct (IH r (fun k0 H => Hkl k0 (or_intror H)) H2 eq_refl) as (nfs & Hm & Hks).
-      simpl in Epv. rewrite Epv. cbn [bind]. rewrite Hm. cbn [bind fst snd].
+      simpl in Epv. rewrite (gotype_key_agree env fo ko _ _ _ Epv). cbn [bind]. rewrite Hm. cbn [bind fst snd].
       eexists. split; [reflexivity|].
       exact (key_struct_step sfs k ks fi t d pv r nfs Hnd Hin E1 Hkd (parsed_key_rt true _ _ _ Epv Ec) Hks).
   Qed.
@@ -1606,7 +1607,7 @@ Section SetLoopSpecs.
 
   (* ordered map *)
   Definition set_onew (acc : list (list scalar * tree)) : option tree * result nat :=
-    match make_ordered_entry env sfs keys ek with
+    match make_ordered_entry env fo ko sfs keys ek with
     | Ok (mk, nfs) =>
         match tl_find mk acc with
         | Some _ => (Some (TList acc), Err)
@@ -1619,7 +1620,7 @@ Section SetLoopSpecs.
     end.
 
   Lemma set_oall_nomatch : forall l acc n, entries_ok l -> tl_find pk l = None ->
-    set_oall env ko o rec s sfs keys ek prest (length keys) l acc n =
+    set_oall env fo ko o rec s sfs keys ek prest (length keys) l acc n =
     if Nat.eqb n O && s_init o then set_onew acc else (Some (TList acc), Ok n).
   Proof.
     induction l as [|[mk e] more IH]; intros acc n Hok Hf.
@@ -1631,7 +1632,7 @@ Section SetLoopSpecs.
   Qed.
 
   Lemma set_oall_spec : forall l acc, entries_ok l -> NoDup (map fst l) ->
-    set_oall env ko o rec s sfs keys ek prest (length keys) l acc O =
+    set_oall env fo ko o rec s sfs keys ek prest (length keys) l acc O =
     match tl_find pk l with
     | None => if s_init o then set_onew acc else (Some (TList acc), Ok O)
     | Some e =>
